@@ -169,7 +169,8 @@ def run_property(prop, tier, seed=0, only=None, jobs=None):
         print("   obligation %s path=%s model=%s" % (r["name"], r.get("path"), r.get("model_float")))
         print("   replay on unmodified code: %s" % (r["replay"].get("detail"),))
     for r in spurious:
-        print("NOT-REPRODUCED (counted inconclusive, not a violation): %s path=%s %s" % (r["name"], r.get("path"), r["replay"].get("detail")))
+        print("NOT-REPRODUCED (counted inconclusive, not a violation): %s path=%s %s%s" % (r["name"], r.get("path"), r["replay"].get("detail"),
+                                                                                            (" | symbolic run: %s" % r["detail"]) if r.get("detail") else ""))
     for name, err in errors:
         print("HARNESS-ERROR task=%s\n%s" % (name, err))
     for r in vacuous:
@@ -179,7 +180,7 @@ def run_property(prop, tier, seed=0, only=None, jobs=None):
     meta = getattr(prop, "META", {})
     samples = []
     for r in (discharged[:2] + sats[:3] + inconclusive[:1]):
-        samples.append({k: r.get(k) for k in ("name", "path", "verdict", "t", "size", "phase", "model", "replay", "known") if r.get(k) is not None})
+        samples.append({k: r.get(k) for k in ("name", "path", "verdict", "t", "size", "phase", "detail", "model", "replay", "known") if r.get(k) is not None})
     distinct = len({(r["name"], r.get("path")) for r in obligations if not r.get("trivial")})
     from . import loader
     ev = dict(
